@@ -60,7 +60,9 @@ def acl_ok(extras):
 
 
 ACL_T = (X.hx("faCl"), X.hx("faCe"))
-FIELDS = ["name", "kind", "codec", "cipher", "mode", "content", "ctime", "mtime", "atime", "perm", "xattrs", "extras"]
+# raw_size / csize: the recorded sizes (fSIZ chunk present or not, its value; the data chunks' total) — no editing command
+# names them, so they belong to the frame of every one (seeded C10-6: strip gave size-less entries an fSIZ = 0)
+FIELDS = ["name", "kind", "codec", "cipher", "mode", "content", "ctime", "mtime", "atime", "perm", "xattrs", "extras", "raw_size", "csize"]
 
 
 def diff_fields(b, a, ignore=()):
